@@ -54,9 +54,19 @@ def _configs(tier):
     out = {}
     n_steps = 2 if tier == "quick" else 3
 
-    def add(name, n_sens, n_tgt, decision, start=START, steps=n_steps, dparams=None, cfg_over=None, **net):
+    cost_metrics = [{"name": "ShannonInformation", "parameters": {}}, {"name": "LyapunovStability", "parameters": {}},
+                    {"name": "SlewDistanceMinimization", "parameters": {}}]
+
+    def add(name, n_sens, n_tgt, decision, start=START, steps=n_steps, dparams=None, cfg_over=None, reward=None,
+            far_target=False, **net):
         tg, ss = _network(n_sens, n_tgt, start, **net)
-        cfg = scen.config(start, steps + 1, [scen.engine(1, tg, ss, decision=decision, dparams=dparams)], seed=3)
+        if far_target:
+            # last target sits 60 deg east: visible to none/one of the sites -> visibility rows differ between targets
+            tg[-1] = scen.target_eci(tg[-1]["id"], *scen.overhead_orbit(start, 5.0, 95.0, 1500.0, 90.0))
+        eng = scen.engine(1, tg, ss, decision=decision, dparams=dparams)
+        if reward == "cost":
+            eng["reward"] = {"name": "CostConstrainedReward", "metrics": cost_metrics, "parameters": {}}
+        cfg = scen.config(start, steps + 1, [eng], seed=3)
         for k, v in (cfg_over or {}).items():
             cfg[k].update(v)
         out[name] = (cfg, steps)
@@ -73,6 +83,9 @@ def _configs(tier):
     add("allvisible_miss_2x2", 2, 2, "AllVisibleDecision",
         fov={"fov_shape": "conic", "cone_angle": 0.001}, cfg_over={"noise": {"init_position_std_km": 200.0}})
     add("munkres_2x2_sec37", 2, 2, "MunkresDecision", start=datetime(2021, 3, 30, 16, 0, 37))
+    # heterogeneous reward rows (information/stability/slew metrics differ per pair) and visibility rows
+    add("munkres_2x3_cost_far", 2, 3, "MunkresDecision", reward="cost", far_target=True)
+    add("greedy_2x2_cost", 2, 2, "MyopicNaiveGreedyDecision", reward="cost")
     add("munkres_1x2", 1, 2, "MunkresDecision")
     add("munkres_1x1", 1, 1, "MunkresDecision")
     if tier == "thorough":
